@@ -1,11 +1,12 @@
 """C11 - resource paths, shadowing and back-links stay consistent (E1)."""
 import collections
+import contextlib
 import itertools
 
 from mc import env  # noqa: F401
 from mc import kernel
 from mc.canon import canon
-from mc.report import Violation
+from mc.report import Violation, HarnessError
 
 import desper
 
@@ -137,6 +138,10 @@ class TreeDriver:
         return ctx
 
     # -- values ------------------------------------------------------------
+    def rk(self, ctx, key):
+        """The key as it is spelled for the real map (model keys use '/')."""
+        return key
+
     def _handle(self, ctx):
         ctx.counter += 1
         h = H(f'h{ctx.counter}')
@@ -204,7 +209,7 @@ class TreeDriver:
     def _target(self, ctx, t):
         if t == '':
             return ctx.root, ctx.model
-        return ctx.root.get(t), ctx.model.visible(t)
+        return ctx.root.get(self.rk(ctx, t)), ctx.model.visible(t)
 
     def apply(self, ctx, op):
         kind = op[0]
@@ -242,10 +247,10 @@ class TreeDriver:
                 real, mv = self.make(ctx, vkind)
             parts = key.split('/')
             before = self._lookup(ctx, key)
-            before_real = (ctx.root.get(key) if isinstance(before, MM)
-                           else None)
+            before_real = (ctx.root.get(self.rk(ctx, key))
+                           if isinstance(before, MM) else None)
             try:
-                ctx.root[key] = real
+                ctx.root[self.rk(ctx, key)] = real
             except Exception as exc:
                 raise Violation('setitem_raised', f'm[{key!r}] = {vkind} '
                                 f'raised {exc!r}', value=vkind)
@@ -358,7 +363,7 @@ class TreeDriver:
                          ('handle' if isinstance(want, MH) else 'map'))
             # style 1: composite []
             try:
-                d1 = m[key]
+                d1 = m[self.rk(ctx, key)]
                 f1 = None
             except KeyError as exc:
                 d1, f1 = sent, exc
@@ -373,7 +378,7 @@ class TreeDriver:
             except Exception:
                 d2 = sent
             # style 3: get()
-            got = m.get(key, sent)
+            got = m.get(self.rk(ctx, key), sent)
             if got is sent:
                 d3 = sent
             elif isinstance(got, desper.Handle):
@@ -438,7 +443,10 @@ class TreeDriver:
                 if not shadowed and real.get(name) is not h.obj:
                     raise Violation('latest_assignment_wins', f'{where}')
                 if shadowed:
-                    if real.handles.maps[depth].get(name) is not h.obj:
+                    # (looked for in every layer: an implementation may
+                    # keep fewer physical layers than were pushed)
+                    if not any(layer.get(name) is h.obj
+                               for layer in real.handles.maps):
                         raise Violation(
                             'shadowed_handle_stays_beneath',
                             f'handle shadowed at {where!r} is no longer in '
@@ -488,6 +496,81 @@ class TreeDriver:
                 spare, ctx.remapped if self.remap else 0)
 
 
+DELIMS = ('/', '.', ':')
+
+
+class DelimDriver(TreeDriver):
+    """The documented delimiter (class attribute ResourceMap.split_char,
+    "can be changed at any time") is changed between operations: from then
+    on the same tree is addressed through keys spelled with the new one,
+    and a string holding an old delimiter is a plain name."""
+
+    def initial(self):
+        ctx = super().initial()
+        ctx.delim = '/'
+        return ctx
+
+    def rk(self, ctx, key):
+        return key.replace('/', ctx.delim)
+
+    @contextlib.contextmanager
+    def _delim(self, ctx):
+        if desper.ResourceMap.split_char != '/':
+            raise HarnessError('ResourceMap.split_char was left changed')
+        desper.ResourceMap.split_char = ctx.delim
+        try:
+            yield
+        finally:
+            desper.ResourceMap.split_char = '/'
+
+    def params(self):
+        return dict(super().params(), delimiters=DELIMS)
+
+    def ops(self, ctx):
+        return super().ops(ctx) + [('delim', c) for c in DELIMS
+                                   if c != ctx.delim]
+
+    def apply(self, ctx, op):
+        if op[0] == 'delim':
+            ctx.delim = op[1]
+            ctx.hits['delimiter_changed'] += 1
+            return
+        with self._delim(ctx):
+            super().apply(ctx, op)
+
+    def check(self, ctx):
+        sent = object()
+        with self._delim(ctx):
+            obs = super().check(ctx)
+            # spelled with another delimiter the key is one plain name
+            # (never assigned): absent, whatever it meant before
+            for other in DELIMS:
+                if other == ctx.delim:
+                    continue
+                for key in self.all_keys:
+                    if '/' not in key:
+                        continue
+                    text = key.replace('/', other)
+                    got = ctx.root.get(text, sent)
+                    try:
+                        ctx.root[text]
+                        found = True
+                    except KeyError:
+                        found = False
+                    if got is not sent or found:
+                        raise Violation(
+                            'key_split_on_current_delimiter',
+                            f'delimiter {ctx.delim!r}: {text!r} is a plain '
+                            f'name that was never assigned, get returned '
+                            f'{_show(got, sent)}, [] '
+                            f'{"found something" if found else "raised KeyError"}',
+                            delimiter=ctx.delim)
+        return obs + (ctx.delim,)
+
+    def key(self, ctx):
+        return super().key(ctx) + (ctx.delim,)
+
+
 def _name_of(mm, node):
     for name, child in mm.maps.items():
         if child is node:
@@ -523,6 +606,11 @@ def drivers(tier):
                 layer_targets=(), clear_targets=('',), key_depth=2,
                 remap=True),
                 dict(max_states=300000, time_budget=200)),
+            # the delimiter is changed between operations
+            'delimiter': (DelimDriver(
+                'delimiter', ('handle', 'empty'), rich_depth=0,
+                layer_targets=(), clear_targets=('',), key_depth=2),
+                dict(max_states=300000, time_budget=200)),
             # empty path components are legal names too ('/x', 'x/', '')
             'empty-names': (TreeDriver(
                 'empty-names', ('handle', 'empty'), rich_depth=0,
@@ -539,6 +627,10 @@ def drivers(tier):
             layer_targets=('',), clear_targets=('', 'a'), key_depth=2,
             names=('a', 'b'), reassign=True, max_layers=2),
             dict(max_states=1000000, time_budget=900)),
+        'delimiter': (DelimDriver(
+            'delimiter', ('handle', 'empty', 'populated'), rich_depth=1,
+            layer_targets=('',), clear_targets=('', 'a'), key_depth=2),
+            dict(max_states=1500000, time_budget=900)),
         'remap': (TreeDriver(
             'remap', ('handle', 'empty', 'populated'), rich_depth=1,
             layer_targets=('',), clear_targets=('', 'a'), key_depth=2,
@@ -570,8 +662,13 @@ def run(tier, rep):
     rep.rule = RULE
     rep.assumptions += [
         'maps are inserted once; one handle may be stored at a second place '
-        '(its back-link follows the latest assignment); cycles and custom '
-        'split_char are outside the alphabet',
+        '(its back-link follows the latest assignment); cycles are outside '
+        'the alphabet',
+        'part delimiter: ResourceMap.split_char (class attribute) is changed '
+        'between operations among "/", "." and ":"; keys are spelled with '
+        'the current delimiter, a string holding another one is a plain '
+        'name; delimiters on instances / subclasses and names containing '
+        'the delimiter are not in the alphabet',
         'parent / key of objects that were replaced (not cleared) are free',
         'chained indexing "fails" with any exception (indexing into a loaded '
         'resource is not a KeyError)',
@@ -582,6 +679,7 @@ def run(tier, rep):
                      same_handle_at_two_places=1,
                      overwritten_object_assigned_again=1,
                      overwritten_map_assigned_elsewhere=1,
+                     delimiter_changed=1,
                      add_layer=1, handle_over_lower_layer=1)
     for name, (driver, kw) in drivers(tier).items():
         kernel.explore(driver, rep, part=name, params=driver.params(), **kw)
